@@ -289,6 +289,12 @@ def mentions_var(t, v):
 
 def check(F, run, tier):
     S = Summaries(F)
+    # a failed or short file read must not leave the shared stream failed: later seeks and reads on the same reader would be ignored
+    from ..rules_archive import r_fstream
+    for _nm in ("ReadImplementation", "ReadPartial"):
+        run.add(r_fstream(F, S, F.fn("OP2Utility::Stream::FileReader::" + _nm, nparams=2)))
+    from ..rules_archive import noexcept_obligations
+    noexcept_obligations(F, S, run)
     run.declined = DECLINED
     run.explanation = (
         "Static analysis of the stream reader classes (clang AST + CFG of /repo's current source). Decided: R-ATOMIC "
